@@ -114,6 +114,9 @@ partial def toStmt : SExp → Option Stmt
   | .list [.atom "reraise"] => some .reraise
   | .list [.atom "ret", .atom v] => v.toInt?.map .ret
   | .list [.atom "raise", .atom e] => (parseExc e).map .raise
+  -- `raise E() from C()`: the model has no notion of `__cause__` of a body's own exception (the
+  -- harness compares it with the native run directly); for the model it is `raise E()`
+  | .list [.atom "raisefrom", .atom e, .atom _] => (parseExc e).map .raise
   | .list [.atom "cset", .atom i, .atom v] => do
     let i ← i.toNat?
     let v ← v.toInt?
